@@ -618,7 +618,8 @@ class _History:
                 # whatever record the regenerated results claim to be for, they were stored for another one.
                 # TTA alone hands them back labelled with the source record and leaves the rejection to its
                 # run_on_record, which compares the ids and recomputes
-                if name.endswith(".tta") and what == f"results-for:{source}":
+                # (terpene does the same: its run_on_record recomputes unless results.record_id == record.id)
+                if name.rsplit(".", 1)[-1] in ("tta", "terpene") and what == f"results-for:{source}":
                     continue
                 res.violate("C11-d", f"{name.rsplit('.', 1)[-1]} results stored for record {source} were regenerated against record "
                             f"{other} ({what})", sig=f"C11-d:foreign-record:{name.rsplit('.', 1)[-1]}")
